@@ -1,5 +1,7 @@
 import AsynqModel.Lib.Asyncio
 import AsynqModel.Proofs.Asyncio
+import AsynqModel.Proofs.AsyncioSem
+import AsynqModel.Proofs.AsyncioLock
 /-! helper lemmas for C15: `_gather` spelled out, shapes, and the observer `spec` on the model's own observations -/
 namespace AsynqModel.Asyncio
 open AsynqModel.Core (Val)
@@ -73,6 +75,12 @@ theorem resolveA_shape : ∀ (y : Ys) (s : St) (v : Val), (resolveA y s).1 = .ok
     unfold resolveA at h
     cases hm : s.mode <;> simp [hm] at h <;> subst h <;> simp [shapeOk]
   | .task _ _, _, _, _ => by simp [shapeOk]
+  | .sub y, s, v, h => by simp only [resolveA] at h; simp only [shapeOk]; exact resolveA_shape y s v h
+  | .pval y, s, v, h => by
+    unfold resolveA at h
+    cases hm : s.mode
+    · simp only [hm, Bool.false_eq_true, if_false] at h; simp only [shapeOk]; exact resolveA_shape y s v h
+    · simp [hm] at h
   | .tup l, s, v, h => by
     simp only [resolveA] at h
     rcases hg : (gatherA l s).1 with vs | e | w <;> simp [hg, OutL.wrap] at h
@@ -99,6 +107,125 @@ theorem gatherA_shape : ∀ (l : YsL) (s : St) (vs : List Val), (gatherA l s).1 
     exact ⟨resolveA_shape y s v ha, gatherA_shape l _ ws hb⟩
 end
 
+/-! ### every run ends with the end of its own task, carrying the outcome -/
+
+theorem bodyR_fin : ∀ (p : Prog) (gen : Bool) (t : Nat) (env : List Val) (caught : Option Err) (i : Nat) (s : St),
+    s.mode = false → caught ≠ some .syncRefused →
+    (bodyR gen t env caught i p s).2.log.head? = some (.fin t (bodyR gen t env caught i p s).1)
+  | .ret _, _, _, _, _, _, _, _, _ => by simp [bodyR]
+  | .res _, _, _, _, _, _, _, _, _ => by simp [bodyR]
+  | .raise _, _, _, _, _, _, _, _, _ => by simp [bodyR]
+  | .raiseB _, _, _, _, _, _, _, _, _ => by simp [bodyR]
+  | .reraise, _, _, _, _, _, _, _, _ => by simp [bodyR]
+  | .yld hb y k h, gen, t, env, caught, i, s, hm, hc => by
+    unfold bodyR
+    cases gen
+    · simp
+    · have h2 := ysR_mode y s
+      have hf := (ysR_good y s hm).1
+      rcases hR : ysR y s with ⟨r, s1⟩
+      rw [hR] at h2 hf
+      simp only at h2 hf
+      have hm1 : s1.mode = false := by rw [h2, hm]
+      cases r with
+      | ok v =>
+        simp only [Bool.not_true, Bool.false_eq_true, if_false]
+        exact bodyR_fin k _ _ _ _ _ _ (by simp [hm1]) hc
+      | err e =>
+        simp only [Bool.not_true, Bool.false_eq_true, if_false]
+        split
+        · simp
+        · have he : some e ≠ some Err.syncRefused := by
+            intro hh; injection hh with hh; subst hh; simp [Out.fine] at hf
+          exact bodyR_fin h _ _ _ _ _ _ (by simp [hm1]) he
+      | esc v => simp [Out.fine] at hf
+  | .sync c child k h, gen, t, env, caught, i, s, hm, hc => by
+    unfold bodyR
+    simp only [hm, Bool.false_eq_true, if_false]
+    have hf := (bodyR_good child c.kind.isGen c.label [] none 0 (s.emit (.start c.label false)) (by simp [hm]) (by simp)).1
+    have h2 := bodyR_mode child c.kind.isGen c.label [] none 0 (s.emit (.start c.label false))
+    rcases hR : bodyR c.kind.isGen c.label [] none 0 child (s.emit (.start c.label false)) with ⟨r, s1⟩
+    rw [hR] at hf h2
+    simp only at hf h2
+    have hm1 : s1.mode = false := by rw [h2]; simp [hm]
+    cases r with
+    | ok v => exact bodyR_fin k _ _ _ _ _ _ (by simp [hm1]) hc
+    | err e =>
+      simp only
+      split
+      · simp
+      · have he : some e ≠ some Err.syncRefused := by
+          intro hh; injection hh with hh; subst hh; simp [Out.fine] at hf
+        exact bodyR_fin h _ _ _ _ _ _ (by simp [hm1]) he
+    | esc v => simp [Out.fine] at hf
+
+theorem bodyA_fin : ∀ (p : Prog) (gen : Bool) (t : Nat) (env : List Val) (caught : Option Err) (i : Nat) (s : St),
+    s.mode = true →
+    (bodyA gen t env caught i p s).2.log.head? = some (.fin t (bodyA gen t env caught i p s).1)
+  | .ret _, _, _, _, _, _, _, _ => by simp [bodyA]
+  | .res _, _, _, _, _, _, _, _ => by simp [bodyA]
+  | .raise _, _, _, _, _, _, _, _ => by simp [bodyA]
+  | .raiseB _, _, _, _, _, _, _, _ => by simp [bodyA]
+  | .reraise, _, _, _, _, _, _, _ => by simp [bodyA]
+  | .yld hb y k h, gen, t, env, caught, i, s, hm => by
+    unfold bodyA
+    cases gen
+    · simp
+    · have h2 := resolveA_mode y s
+      have hf := (resolveA_good y s hm).1
+      rcases hR : resolveA y s with ⟨r, s1⟩
+      rw [hR] at h2 hf
+      simp only at h2 hf
+      have hm1 : s1.mode = true := by rw [h2, hm]
+      cases r with
+      | ok v =>
+        simp only [Bool.not_true, Bool.false_eq_true, if_false]
+        exact bodyA_fin k _ _ _ _ _ _ (by simp [hm1])
+      | err e =>
+        simp only [Bool.not_true, Bool.false_eq_true, if_false]
+        split
+        · simp
+        · exact bodyA_fin h _ _ _ _ _ _ (by simp [hm1])
+      | esc v => simp [Out.noEsc] at hf
+  | .sync c child k h, gen, t, env, caught, i, s, hm => by
+    have hA : bodyA gen t env caught i (.sync c child k h) s =
+        bodyA gen t env (some .syncRefused) i h (s.emit (.syncX t (.err .syncRefused))) := by
+      simp [bodyA, hm, Err.isBase]
+    rw [hA]
+    exact bodyA_fin h _ _ _ _ _ _ (by simp [hm])
+
+/-- a log that opens with an event of task `t` and closes with `fin t out` passes `rootOk` -/
+theorem rootOk_intro (ob : Obs) (e0 : Ev) (mid : List Ev) (h : ob.log = e0 :: (mid ++ [.fin e0.label ob.out])) :
+    rootOk ob = true := by
+  unfold rootOk
+  rw [h]
+  simp only
+  rw [← List.cons_append, List.filter_append]
+  have : List.filter (fun e => e.label == e0.label) [Ev.fin e0.label ob.out] = [Ev.fin e0.label ob.out] := by
+    simp [Ev.label]
+  rw [this, List.getLast?_concat]
+  simp
+
+/-- newest-first form: the log is `fin t out :: l ++ base`, `base` non-empty with its OLDEST event of task `t` -/
+theorem rootOk_of_log (ob : Obs) (t : Nat) (slog base : List Ev) (e0 : Ev) (l : List Ev)
+    (hob : ob.log = slog.reverse) (hext : slog = l ++ (base ++ [e0])) (h0 : e0.label = t)
+    (hb : ∀ o, base.head? ≠ some (.fin t o) ∧ e0 ≠ .fin t o)
+    (hfin : slog.head? = some (.fin t ob.out)) : rootOk ob = true := by
+  cases l with
+  | nil =>
+    exfalso
+    rw [hext] at hfin
+    cases base with
+    | nil => simp at hfin; exact (hb ob.out).2 hfin
+    | cons b base => simp at hfin; exact (hb ob.out).1 (by simp [hfin])
+  | cons x l =>
+    rw [hext] at hfin
+    simp only [List.cons_append, List.head?_cons, Option.some.injEq] at hfin
+    subst hfin
+    apply rootOk_intro ob e0 (base.reverse ++ l.reverse)
+    rw [hob, hext, h0]
+    simp
+
 /-! ### the observer accepts good observations -/
 
 theorem all_imp {α : Type} {p q : α → Bool} {l : List α} (h : l.all p = true)
@@ -106,25 +233,32 @@ theorem all_imp {α : Type} {p q : α → Bool} {l : List α} (h : l.all p = tru
   rw [List.all_eq_true] at h ⊢
   exact fun x hx => hpq x (h x hx)
 
-theorem specObs_ok_R (ref : Out) (ob : Obs) (hc : ob.conv.isAio = false) (hb : ob.before = false)
+theorem specObs_ok_R (ref : Out) (refP : List PEv) (ob : Obs) (hc : ob.conv.isAio = false) (hb : ob.before = false)
     (ha : ob.after = false) (hcan : canaryOk ob.canary = true) (hlog : ob.log.all evOkR = true)
-    (hout : ob.out = ref) : specObs ref ob = .ok () := by
+    (hesc : isEsc ob.out = false) (hout : ob.out = ref) (hproj : proj ob.log = refP) (hroot : rootOk ob = true) :
+    specObs ref (canonP refP) ob = .ok () := by
   have h1 : ob.log.all noBad = true := all_imp hlog (by intro e he; simp [evOkR] at he; exact he.2)
   have h2 : ob.log.all (modeSeen false) = true := all_imp hlog (by intro e he; simp [evOkR] at he; exact he.1.1.2)
   have h3 : ob.log.all dcOk = true := all_imp hlog (by intro e he; simp [evOkR] at he; exact he.1.1.1)
   have h4 : ob.log.all syncAllowedOk = true := all_imp hlog (by intro e he; simp [evOkR] at he; exact he.1.2)
-  simp [specObs, h1, h2, h3, h4, hc, hb, ha, hcan, hout]
+  subst hout
+  subst hproj
+  simp [specObs, h1, h2, h3, h4, hc, hb, ha, hcan, hesc, hroot]
 
-theorem specObs_ok_A (ref : Out) (ob : Obs) (hc : ob.conv.isAio = true) (hb : ob.before = false)
+theorem specObs_ok_A (ref : Out) (refP : List PEv) (ob : Obs) (hc : ob.conv.isAio = true) (hb : ob.before = false)
     (ha : ob.after = false) (hcan : canaryOk ob.canary = true) (hlog : ob.log.all evOkA = true)
-    (hout : ob.log.any isSyncX = false → ob.out = ref) : specObs ref ob = .ok () := by
+    (hesc : isEsc ob.out = false) (hroot : rootOk ob = true)
+    (hout : ob.log.any isSyncX = false → ob.out = ref ∧ proj ob.log = refP) :
+    specObs ref (canonP refP) ob = .ok () := by
   have h1 : ob.log.all noBad = true := all_imp hlog (by intro e he; simp [evOkA] at he; exact he.2)
   have h2 : ob.log.all (modeSeen true) = true := all_imp hlog (by intro e he; simp [evOkA] at he; exact he.1.1.2)
   have h3 : ob.log.all dcOk = true := all_imp hlog (by intro e he; simp [evOkA] at he; exact he.1.1.1)
   have h4 : ob.log.all syncRefusedOk = true := all_imp hlog (by intro e he; simp [evOkA] at he; exact he.1.2)
   cases hs : ob.log.any isSyncX
-  · simp [specObs, h1, h2, h3, h4, hc, hb, ha, hcan, hs, hout hs]
-  · simp [specObs, h1, h2, h3, h4, hc, hb, ha, hcan, hs]
+  · obtain ⟨ho, hp⟩ := hout hs
+    subst ho
+    simp [specObs, h1, h2, h3, h4, hc, hb, ha, hcan, hs, hp, hesc, hroot]
+  · simp [specObs, h1, h2, h3, h4, hc, hb, ha, hcan, hs, hesc, hroot]
 
 theorem canary_off (s : St) (h : s.mode = false) : canaryOk (canary s) = true := by
   simp [canary, topCall, h, bodyR, canaryOk]
@@ -146,13 +280,53 @@ theorem topA_eq (c : Call) (p : Prog) (s : St) :
       exitMode s.mode (bodyA c.kind.isGen c.label [] none 0 p (callPre c s)).2) := by
   simp [topA, callA_eq]
 
-theorem topA_good (c : Call) (p : Prog) (hr : p.noRes = true) :
+theorem topA_good (c : Call) (p : Prog) :
     (topA c p {}).2.mode = false ∧ (topA c p {}).2.log.all evOkA = true := by
-  have hg := (bodyA_good p c.kind.isGen c.label [] none 0 (callPre c {}) (by simp) hr).2
+  have hg := (bodyA_good p c.kind.isGen c.label [] none 0 (callPre c {}) (by simp)).2
   rw [topA_eq]
   refine ⟨rfl, ?_⟩
   have := ((callPre_ext c {}).trans hg).all rfl
   simpa using this
+
+theorem topA_noEsc (c : Call) (p : Prog) : isEsc (topA c p {}).1 = false := by
+  have hg := (bodyA_good p c.kind.isGen c.label [] none 0 (callPre c {}) (by simp)).1
+  rw [topA_eq]
+  revert hg
+  cases (bodyA c.kind.isGen c.label [] none 0 p (callPre c {})).1 <;> simp [Out.noEsc, isEsc]
+
+theorem topCall_noEsc (c : Call) (p : Prog) : isEsc (topCall c p {}).1 = false := by
+  have hg := (bodyR_good p c.kind.isGen c.label [] none 0 (({} : St).emit (.start c.label false)) rfl (by simp)).1
+  have hR : topCall c p {} = bodyR c.kind.isGen c.label [] none 0 p (({} : St).emit (.start c.label false)) := rfl
+  rw [hR]
+  revert hg
+  cases (bodyR c.kind.isGen c.label [] none 0 p (({} : St).emit (.start c.label false))).1 <;> simp [Out.fine, isEsc]
+
+/-- the log of `fn(args)` opens with the start of the root task and closes with its end, carrying the outcome -/
+theorem topCall_root (c : Call) (p : Prog) (ob : Obs) (hlog : ob.log = (topCall c p {}).2.log.reverse)
+    (hout : ob.out = (topCall c p {}).1) : rootOk ob = true := by
+  have hR : topCall c p {} = bodyR c.kind.isGen c.label [] none 0 p (({} : St).emit (.start c.label false)) := rfl
+  obtain ⟨l, hl⟩ := (bodyR_good p c.kind.isGen c.label [] none 0 (({} : St).emit (.start c.label false)) rfl (by simp)).2.logExt
+  have hf := bodyR_fin p c.kind.isGen c.label [] none 0 (({} : St).emit (.start c.label false)) rfl (by simp)
+  rw [← hR] at hl hf
+  rw [← hout] at hf
+  exact rootOk_of_log ob c.label _ [] (.start c.label false) l hlog (by simpa using hl) rfl (by simp) hf
+
+/-- the same for `await fn.asyncio(args)` (the log opens with `afn` of the root if it has an explicit asyncio_fn) -/
+theorem topA_root (c : Call) (p : Prog) (ob : Obs) (hlog : ob.log = (topA c p {}).2.log.reverse)
+    (hout : ob.out = (topA c p {}).1) : rootOk ob = true := by
+  obtain ⟨l, hl⟩ := (bodyA_good p c.kind.isGen c.label [] none 0 (callPre c {}) (by simp)).2.logExt
+  have hf := bodyA_fin p c.kind.isGen c.label [] none 0 (callPre c {}) (by simp)
+  have hA := topA_eq c p {}
+  have h1 : (topA c p {}).2.log = (bodyA c.kind.isGen c.label [] none 0 p (callPre c {})).2.log := by rw [hA]; rfl
+  have h2 : (topA c p {}).1 = (bodyA c.kind.isGen c.label [] none 0 p (callPre c {})).1 := by rw [hA]
+  rw [← h1] at hl hf
+  rw [← h2, ← hout] at hf
+  rw [callPre_log] at hl
+  cases hafn : c.afn
+  · simp only [hafn, Bool.false_eq_true, if_false] at hl
+    exact rootOk_of_log ob c.label _ [] (.start c.label true) l hlog (by simpa using hl) rfl (by simp) hf
+  · simp only [hafn, if_true] at hl
+    exact rootOk_of_log ob c.label _ [.start c.label true] (.afn c.label) l hlog (by simpa using hl) rfl (by simp) hf
 
 theorem any_false_of_countP {α : Type} (p : α → Bool) (l : List α) (h : l.any p = false) : l.countP p = 0 := by
   rw [List.countP_eq_zero]
@@ -160,19 +334,77 @@ theorem any_false_of_countP {α : Type} (p : α → Bool) (l : List α) (h : l.a
   have : l.any p = true := List.any_eq_true.mpr ⟨a, ha, hpa⟩
   rw [h] at this; cases this
 
-theorem topA_sem (c : Call) (p : Prog) (hr : p.noRes = true) (hx : p.safe = true) (s' : St) (hm' : s'.mode = false)
+theorem topA_sem (c : Call) (p : Prog) (hp : p.plainY = true) (hx : p.safe = true) (s' : St) (hm' : s'.mode = false)
     (hn : (topA c p {}).2.log.any isSyncX = false) : (topA c p {}).1 = (topCall c p s').1 := by
   rw [topA_eq] at hn ⊢
   simp only [topCall, hm', Bool.false_eq_true, if_false]
   have h0 : (bodyA c.kind.isGen c.label [] none 0 p (callPre c {})).2.nSync = 0 := any_false_of_countP _ _ hn
   have hle := (callPre_ext c {}).nSync_le
-  have hle2 := (bodyA_good p c.kind.isGen c.label [] none 0 (callPre c {}) (by simp) hr).2.nSync_le
-  exact bodyA_sem p _ _ _ _ _ _ _ (by simp) (by simp [hm']) hr (Safe.ofBool hx) (by omega)
+  have hle2 := (bodyA_good p c.kind.isGen c.label [] none 0 (callPre c {}) (by simp)).2.nSync_le
+  exact bodyA_sem p _ _ _ _ _ _ _ (by simp) (by simp [hm']) hp (Safe.ofBool hx) (by omega)
+
+/-- what the lockstep theorem says about the two logs as observed (oldest first) -/
+theorem top_deliveries (c : Call) (p : Prog) (hp : p.plainY = true) (hx : p.safe = true) :
+    ((topA c p {}).2.log.reverse.any isSyncX = false →
+        (topA c p {}).1 = (topCall c p {}).1 ∧
+        proj (topA c p {}).2.log.reverse = proj (topCall c p {}).2.log.reverse) ∧
+    ((topA c p {}).2.log.reverse.any isSyncX = true →
+        proj (cutSync (topA c p {}).2.log.reverse) <+: proj (topCall c p {}).2.log.reverse) := by
+  have h := top_lock c p hp hx
+  constructor
+  · intro hn
+    rw [List.any_reverse] at hn
+    rcases h with ⟨ho, hs, hl⟩ | ⟨hs, _⟩
+    · refine ⟨ho, ?_⟩
+      simp only [proj, List.filterMap_reverse] at hl ⊢
+      rw [hl]
+    · simp [St.hasSync, hn] at hs
+  · intro hn
+    rw [List.any_reverse] at hn
+    rcases h with ⟨_, hs, _⟩ | ⟨_, hd⟩
+    · simp [St.hasSync, hn] at hs
+    · exact hd
 
 theorem spec_intro (o1 o2 o3 o4 o5 : Obs) (c1 : o1.conv = .call) (c2 : o2.conv = .value) (c3 : o3.conv = .aio)
     (c4 : o4.conv = .aiorun) (c5 : o5.conv = .aiotask)
-    (h1 : specObs o1.out o1 = .ok ()) (h2 : specObs o1.out o2 = .ok ()) (h3 : specObs o1.out o3 = .ok ())
-    (h4 : specObs o1.out o4 = .ok ()) (h5 : specObs o1.out o5 = .ok ()) : spec [o1, o2, o3, o4, o5] = true := by
+    (h1 : specObs o1.out (canonP (proj o1.log)) o1 = .ok ())
+    (h2 : specObs o1.out (canonP (proj o1.log)) o2 = .ok ())
+    (h3 : specObs o1.out (canonP (proj o1.log)) o3 = .ok ())
+    (h4 : specObs o1.out (canonP (proj o1.log)) o4 = .ok ())
+    (h5 : specObs o1.out (canonP (proj o1.log)) o5 = .ok ()) : spec [o1, o2, o3, o4, o5] = true := by
   simp [spec, specClause, convsPresent, allConvs, c1, c2, c3, c4, c5, specList, h1, h2, h3, h4, h5]
+
+/-- **C15 as a whole**: the observations of the model under all five ways of running a program - `fn(args)`,
+    `fn.asynq(args).value()`, `await fn.asyncio(args)`, `asyncio.run(fn.asyncio(args))`, as a task beside a watcher - are
+    accepted by the observer `spec`, the same Boolean function the check evaluates on the observations of the real
+    implementation -/
+theorem spec_holds (c : Call) (p : Prog) (hp : p.plainY = true) (hx : p.safe = true) : spec (observe c p) = true := by
+  obtain ⟨hRm, hRl⟩ := topCall_good c p
+  obtain ⟨hAm, hAl⟩ := topA_good c p
+  obtain ⟨hd1, _⟩ := top_deliveries c p hp hx
+  have hRe := topCall_noEsc c p
+  have hAe := topA_noEsc c p
+  have e1 : specObs (topCall c p {}).1 (canonP (proj (topCall c p {}).2.log.reverse)) (observe1 .call c p) = .ok () :=
+    specObs_ok_R _ _ _ rfl rfl hRm (canary_off _ hRm) (by simpa [observe1] using hRl) hRe rfl rfl
+      (topCall_root c p _ rfl rfl)
+  have hv := topValue_eq_topCall c p {} rfl
+  have e2 : specObs (topCall c p {}).1 (canonP (proj (topCall c p {}).2.log.reverse)) (observe1 .value c p) = .ok () :=
+    specObs_ok_R _ _ _ rfl rfl
+      (by rw [show (observe1 .value c p).after = (topValue c p {}).2.mode from rfl, hv]; exact hRm)
+      (by rw [show (observe1 .value c p).canary = canary (topValue c p {}).2 from rfl, hv]; exact canary_off _ hRm)
+      (by rw [show (observe1 .value c p).log = (topValue c p {}).2.log.reverse from rfl, hv]; simpa using hRl)
+      (by rw [show (observe1 .value c p).out = (topValue c p {}).1 from rfl, hv]; exact hRe)
+      (by rw [show (observe1 .value c p).out = (topValue c p {}).1 from rfl, hv])
+      (by rw [show (observe1 .value c p).log = (topValue c p {}).2.log.reverse from rfl, hv])
+      (topCall_root c p _ (by rw [show (observe1 .value c p).log = (topValue c p {}).2.log.reverse from rfl, hv])
+        (by rw [show (observe1 .value c p).out = (topValue c p {}).1 from rfl, hv]))
+  have e3 : specObs (topCall c p {}).1 (canonP (proj (topCall c p {}).2.log.reverse)) (observe1 .aio c p) = .ok () :=
+    specObs_ok_A _ _ _ rfl rfl hAm (canary_off _ hAm) (by simpa [observe1] using hAl) hAe (topA_root c p _ rfl rfl) hd1
+  have e4 : specObs (topCall c p {}).1 (canonP (proj (topCall c p {}).2.log.reverse)) (observe1 .aiorun c p) = .ok () :=
+    specObs_ok_A _ _ _ rfl rfl rfl (canary_off _ rfl) (by simpa [observe1] using hAl) hAe (topA_root c p _ rfl rfl) hd1
+  have e5 : specObs (topCall c p {}).1 (canonP (proj (topCall c p {}).2.log.reverse)) (observe1 .aiotask c p) = .ok () :=
+    specObs_ok_A _ _ _ rfl rfl rfl (canary_off _ rfl) (by simpa [observe1] using hAl) hAe (topA_root c p _ rfl rfl) hd1
+  exact spec_intro (observe1 .call c p) (observe1 .value c p) (observe1 .aio c p) (observe1 .aiorun c p)
+    (observe1 .aiotask c p) rfl rfl rfl rfl rfl e1 e2 e3 e4 e5
 
 end AsynqModel.Asyncio
